@@ -38,3 +38,12 @@ pub fn g_two(a: u32, b: u32) -> u64 { env::body(7, a ^ b) }
 pub fn g_strs(a: String, b: String) -> u64 { env::body(8, (a.len() + b.len()) as u32) }
 #[cache_async]
 pub async fn a_two(a: u32, b: String) -> u64 { env::body(9, a + b.len() as u32) }
+
+#[cache(limit = 3, tags = ["t1", "t2"])]
+pub fn g_tag2(a: u32) -> u64 { env::body(10, a) }
+#[cache(events = ["e1"])]
+pub fn g_ev(a: u32) -> u64 { env::body(11, a) }
+#[cache_async(dependencies = ["g_lru2"], tags = ["t2"])]
+pub async fn a_dep(a: u32) -> u64 { env::body(12, a) }
+#[cache]
+pub fn g_plain(a: u32) -> u64 { env::body(13, a) }
